@@ -2,4 +2,21 @@
 #ifndef VERIF_GHOST_H
 #define VERIF_GHOST_H
 size_t g_map_ops;
+
+/* public / private contract parts (DESIGN.md §3.2): memory-shape clauses of a class that owns a buffer are
+ * assumed/established in the class's own harnesses and switched off where a member is replaced in an outside caller */
+#ifdef VERIF_PUBLIC_ONLY
+#define PRIV(x) 1
+#else
+#define PRIV(x) (x)
+#endif
+
+/* ---- decoder monitor (C02 C04 C05 C06 C17 C18) ---- */
+const uint8_t *g_frame;      /* the frame being decoded (assigned at function entry) */
+size_t g_size;
+size_t g_next_off;           /* offset of the next message that may be delivered as unsegmented: 8 + sum(16 + len_i) */
+size_t g_delivered;          /* packets handed to the result list */
+size_t g_reasm;              /* reassembled packets handed to the result list */
+const uint8_t *g_src;        /* message bytes the most recently constructed Packet was built from */
+uint8_t g0_present; uint16_t g0_seq; uint8_t g0_segtype; uint8_t g0_ver; uint8_t g0_mtype; size_t g0_n;   /* slot at entry */
 #endif
